@@ -38,3 +38,5 @@ for sid in sorted(os.listdir(os.path.join(V, 'seeded'))):
     json.dump(meta, open(mp, 'w'), indent=2)
     json.dump(results, open(os.path.join(V, 'seeded', 'RESULTS.json'), 'w'), indent=1)
     print(sid, [(x['command'].split('./check ')[1].split(' ')[0], x['detected'], x['with_failing_input']) for x in ran], flush=True)
+# the generated Coq files (coq/theories/Gen) now reflect the last seeded tree: regenerate them from the clean tree
+subprocess.run(['./check', 'C16', 'quick'], cwd=V, capture_output=True, text=True, env=dict(os.environ, VERIF_EVIDENCE_SKIP='1'))
